@@ -94,8 +94,14 @@ where
         loop {
             let yielded_count = self.yielded_counter.current();
             match begin_idx.cmp(&yielded_count) {
-                // begin_idx==yielded_count => it is our job to provide the items
-                Ordering::Equal => return Some(begin_idx),
+                // begin_idx==yielded_count => it is our job to provide the items,
+                // unless the iteration has been completed or skipped to the end in the meantime
+                Ordering::Equal => {
+                    return match self.completed.load(atomic::Ordering::Relaxed) {
+                        true => None,
+                        false => Some(begin_idx),
+                    }
+                }
 
                 Ordering::Less => return None,
 
@@ -115,6 +121,9 @@ where
             match item_idx.cmp(&yielded_count) {
                 // item_idx==yielded_count => it is our job to provide the item
                 Ordering::Equal => {
+                    if self.completed.load(atomic::Ordering::Relaxed) {
+                        return None;
+                    }
                     // SAFETY: no other thread has the valid condition to iterate, they are waiting
                     let next = unsafe { self.mut_iter() }.next();
                     match next.is_some() {
@@ -167,8 +176,10 @@ where
     }
 
     fn early_exit(&self) {
-        self.counter().store(usize::MAX);
+        // completed must be published before the counter is reset:
+        // every ticket handed out after the reset then observes it
         self.completed.store(true, atomic::Ordering::SeqCst);
+        self.counter().store(usize::MAX);
     }
 }
 
